@@ -15,6 +15,7 @@
 #include <pika/synchronization/event.hpp>
 
 #include <atomic>
+#include <exception>
 #include <utility>
 
 namespace pika {
@@ -55,6 +56,7 @@ namespace pika {
             long status = 0;
             if (flag.status_.compare_exchange_strong(status, running_value))
             {
+                std::exception_ptr ep;
                 try
                 {
                     // reset event to ensure its usability in case the
@@ -75,14 +77,20 @@ namespace pika {
                 }
                 catch (...)
                 {
-                    // reset status to initial, release waiting threads
-                    PIKA_VERIF_POINT("once.fail", &flag, 0, 0);
-                    flag.status_.store(0);
-                    PIKA_VERIF_POST("once.stored", &flag, 0, 0);
-                    flag.event_.set();
-
-                    throw;
+                    // leave the handler before doing anything that can yield: event::set()
+                    // takes a spinlock, a task that yields inside a catch block can be
+                    // resumed by another worker thread, and `throw;` would then find no
+                    // exception being handled on that thread (std::terminate)
+                    ep = std::current_exception();
                 }
+
+                // reset status to initial, release waiting threads
+                PIKA_VERIF_POINT("once.fail", &flag, 0, 0);
+                flag.status_.store(0);
+                PIKA_VERIF_POST("once.stored", &flag, 0, 0);
+                flag.event_.set();
+
+                std::rethrow_exception(ep);
             }
 
             // we're done if function was called
